@@ -227,6 +227,14 @@ LOOPS = [
     ("list-remove-end", "x := list(1 to {n})", "for (i <- 1 to {k}) remove x[-1]"),
     ("list-concat", "x := list(1 to {n})", "for (i <- 1 to {k}) x ++= [i]"),
     ("list-concat-var", "x := list(1 to {n}); w := [0, 0]", "for (i <- 1 to {k}) x ++= w"),
+    # the collection itself is the condition of the construct whose body mutates it (the condition's value must not stay alive)
+    ("while-cond-pop", "x := list(1 to {n})", "while (x) pop x"),
+    ("while-cond-remove", "x := list(1 to {n})", "while (x) remove x[-1]"),
+    ("while-cond-row", "x := [0, list(1 to {n})]", "while (x[1]) pop x[1]"),
+    ("if-cond-append", "x := list(1 to {n})", "for (i <- 1 to {k}) if (x) x append= i"),
+    ("and-cond-append", "x := list(1 to {n})", "for (i <- 1 to {k}) (x and (x append= i))"),
+    ("switch-scrutinee", "x := list(1 to {n})", "for (i <- 1 to {k}) switch (x) case _ -> (x append= i)"),
+    ("for-iteratee-other", "x := list(1 to {n}); w := list(1 to {n})", "for (i <- w) x append= i"),
     ("vector-concat-var", "x := vector(list(1 to {n})); w := V(0, 0)", "for (i <- 1 to {k}) x ++= w"),
     ("bytes-concat-var", "x := bytes((1 to {n}) map (% 256)); w := B[0, 0]", "for (i <- 1 to {k}) x ++= w"),
     ("dict-op", "x := dict((0 til {n}) map (\\i -> [i, i]))", "for (i <- 0 til {k}) x[i % {n}] += 1"),
@@ -267,7 +275,7 @@ def cases(tier):
     loops = LOOPS
     for (lname, setup, body) in loops:
         for alias in ALIASING:
-            if alias[0] == "realiased" and ("pop" in lname or "remove" in lname):
+            if alias[0] == "realiased" and ("pop" in lname or "remove" in lname or lname.startswith("while") or "iteratee" in lname):
                 continue
             steps, ns = [], []
             for mult in (1, 2, 4):
